@@ -323,14 +323,64 @@ def _detectors(ctx):
     ctx.require_count("R32 detector cases", n, 150)
 
 
+def _dispatch(ctx):
+    """unfold_detector_states: each detector is unfolded across exactly the planes that clipped it"""
+    from ..harness import stub_repo_calls
+    from ..values import Builtin
+
+    ix = ctx.index
+    f = ix.function("fdtdx.fdtd.symmetry.unfold_detector_states")
+    ctx.unit(f.where())
+    bad, n = [], 0
+    for sym in [s_ for s_ in itertools.product((-1, 0, 1), repeat=3) if any(s_)]:
+        patterns = [p for p in itertools.product((False, True), repeat=3)]
+        it = ctx.fresh_interp()
+        calls = {}
+
+        def unfold_one(it_, a, k, _c=calls):
+            det, state, touched, count = a[0], a[1], a[2], a[3]
+            _c[det.attrs["name"]] = (tuple(touched), count)
+            return {"unfolded": det.attrs["name"]}
+
+        stub_repo_calls(it, {"_unfold_one_detector": unfold_one})
+        dets = []
+        for i, pat in enumerate(patterns):
+            dets.append(Obj(None, {"name": f"d{i}", "straddles_symmetry_plane": Builtin("straddles", lambda it_, a, k, _p=pat: _p[a[0]])}, f"d{i}"))
+        states = {d.attrs["name"]: {"raw": d.attrs["name"]} for d in dets}
+        states["orphan"] = {"raw": "orphan"}
+        arrays = open_obj(ix.cls("fdtdx.fdtd.container.ArrayContainer"), "arrays", detector_states=states)
+        objs = Obj(None, {"detectors": dets}, "objects")
+        cfg = Obj(ix.cls("fdtdx.config.SimulationConfig"), dict(symmetry=sym), "config")
+        try:
+            out = it.call(it.closure_of(f), [arrays, objs, cfg], {})
+        except Raised as r:
+            raise AnalysisError(f"unfold_detector_states raises for symmetry {sym}: {r}")
+        new = out.attrs.get("detector_states") if isinstance(out, Obj) else None
+        if not isinstance(new, dict):
+            raise AnalysisError("unfold_detector_states did not return an array container with detector states")
+        for d, pat in zip(dets, patterns):
+            nm = d.attrs["name"]
+            touched = tuple(sym[a] if pat[a] else 0 for a in range(3))
+            cnt = sum(1 for t in touched if t)
+            n += 1
+            if cnt == 0:
+                if nm in calls or new.get(nm) != {"raw": nm}:
+                    bad.append((sym, pat, "a detector that crosses no plane must be returned as stored", calls.get(nm)))
+            elif calls.get(nm) != (touched, cnt) or new.get(nm) != {"unfolded": nm}:
+                bad.append((sym, pat, calls.get(nm), (touched, cnt)))
+        if new.get("orphan") != {"raw": "orphan"}:
+            bad.append((sym, "state without a detector must be kept as stored"))
+    ctx.ob("R32.7", "unfold_detector_states:dispatch", not bad and n == 26 * 8, "for each detector the unfolding receives touched[a] = symmetry[a] on the axes whose plane clipped it (0 elsewhere) and count = the number of those axes — not the number of symmetric axes of the simulation; detectors that cross no plane and states without a detector are returned as stored (26 symmetries x 8 crossing patterns)", bad[:3], "touched / count per detector")
+
+
 def _job(ctx, payload):
-    {"tables": _tables, "fields": _unfold_fields, "array": _unfold_array, "detectors": _detectors}[payload](ctx)
+    {"tables": _tables, "fields": _unfold_fields, "array": _unfold_array, "detectors": _detectors, "dispatch": _dispatch}[payload](ctx)
 
 
 def run(ctx):
     from ..par import run_jobs
 
-    jobs = ["tables", "fields", "array", "detectors"]
+    jobs = ["tables", "fields", "array", "detectors", "dispatch"]
     err = run_jobs(ctx, "sa.checks.c32", "_job", jobs, jobs)
     if err is not None:
         raise AnalysisError(err)
